@@ -7,8 +7,8 @@ from pyerr import exc_code
 import props.c06_impl as I
 
 PROP = 'C06'
-COQ_TARGETS = ['theories/NetFacts.vo', 'theories/NetTerm.vo', 'theories/NetTerm2.vo', 'theories/NetReply.vo', 'theories/NetOnce.vo', 'theories/NetRoute.vo', 'theories/NetArrive.vo', 'theories/NetLocal.vo', 'theories/NetBcast.vo']
-COQ_IMPORTS = 'From Bac Require Import Base Net.'
+COQ_TARGETS = ['theories/NetFacts.vo', 'theories/NetTerm.vo', 'theories/NetTerm2.vo', 'theories/NetReply.vo', 'theories/NetOnce.vo', 'theories/NetRoute.vo', 'theories/NetArrive.vo', 'theories/NetLocal.vo', 'theories/NetBcast.vo', 'theories/NetTree.vo', 'theories/NetFlood.vo', 'theories/NetRound.vo', 'theories/NetCert.vo', 'theories/NetLbc.vo', 'theories/NetAnn.vo']
+COQ_IMPORTS = 'From Bac Require Import Base Net NetCert.'
 RULE = ('cases: (a) single-node scripts - a random node (station told nothing / its address / network+address, or router of 2..4 '
         'ports with or without an application) receives 1..6 events (cache learning, application sends of every address kind, '
         'arriving frames over DADR none/global/remote-broadcast/remote-station x SADR none/remote/spoofed x hop {0,1,2,254,255,random} x '
@@ -18,7 +18,8 @@ RULE = ('cases: (a) single-node scripts - a random node (station told nothing / 
         'networks, 1..3 stations per network, routers of 2..4 ports, 3-/4-rings and a ring with a tail; scripts of sends of every '
         'destination kind from random stations (and, in 40 % of the trees, from an application on a router), cold, organically warmed and installed caches; observed: the complete ordered trace of '
         'frames on every LAN and deliveries, compared with the model world run on the same script.  non-trivial = at least one frame '
-        'or delivery results; distinct by full script.')
+        'or delivery results; distinct by full script.  (c) tree-cert - for random trees with installed caches the hypotheses of the tree theorems '
+        '(internet_okb, tree_tob, tree_fromb: levels / up-ports / parent ports found by BFS in the harness) are evaluated inside Coq on the model world; expected 1.')
 TRUSTED = ['model coq/theories/Net.v written by hand after netservice.py:329-706, 878-1026 and vlan.py:55-131; tie = correspondence',
            'NPDUs are modelled in decoded form; the harness decodes LAN frames with its own decoder (c06_impl.npdu_decode); the NPCI codec is property C08',
            'RouterInfoCache is abstracted to its lookup function (snet, dnet) -> router MAC (coherent states only; property C19)']
@@ -596,6 +597,34 @@ def rnd_world_script(rng, topo, nsend, limit):
     return ev
 
 
+def case_cert(topo, d):
+    """the hypotheses of the tree theorems (internet_ok, tree_to d with warm caches, tree_from d), evaluated inside Coq
+    on the model world of a random tree with the level / up-port / parent-port certificate computed here by BFS"""
+    dist = topo.dist()
+    lv = {n: dist[d][n] for n in topo.nets}
+    ups = []
+    for ports in topo.routers:
+        ups.append(min(range(len(ports)), key=lambda i: lv[ports[i][0]]))
+    ups += [0] * len(topo.station_ids)
+    par = {}
+    for ri, ports in enumerate(topo.routers):
+        for pi, (n, _) in enumerate(ports):
+            if pi != ups[ri]:
+                par[n] = (ri, pi)
+    ev = [e for e in warm_events(topo)]
+    w = 'run_world %s [%s]' % (topo.coq_world(), ';'.join(q_wevent(e) for e in ev))
+    lvq = '[' + ';'.join('(%d%%N, %d%%nat)' % kv for kv in lv.items()) + ']'
+    upq = '[' + ';'.join('%d%%nat' % u for u in ups) + ']'
+    parq = '[' + ';'.join('(%d%%N, (%d%%nat, %d%%nat))' % (n, r, p) for n, (r, p) in par.items()) + ']'
+    coq = ('let w := %s in [zb (internet_okb (lans w) (nodes w) && tree_tob (lans w) (nodes w) %d%%N (assoc_nat %s 999%%nat) (nth_nat %s) (assoc_pair %s) '
+           '&& tree_fromb (lans w) (nodes w) %d%%N (assoc_nat %s 999%%nat) (nth_nat %s) (assoc_pair %s))]'
+           % (w, d, lvq, upq, parq, d, lvq, upq, parq))
+    # on the implementation side the same facts are what the direct predicate relies on: tree shape and warm next hops
+    ok = all(len(set(n for n, _ in ports)) == len(ports) for ports in topo.routers)
+    return Case('tree-cert', coq, [1 if ok else 0], key=('cert', repr(topo.describe()), d), nontrivial=True,
+                desc={'op': 'tree-cert', 'topology': topo.describe(), 'root': d})
+
+
 def cases(rng, tier):
     out = []
     big = tier == 'thorough'
@@ -610,6 +639,9 @@ def cases(rng, tier):
     for _ in range(_n(80 if big else 16)):
         topo = ring(rng, rng.choice([3, 4]), tail=rng.random() < 0.4)
         out.append(case_world('ring-script', topo, rnd_world_script(rng, topo, rng.randrange(1, 3), 250)))
+    for _ in range(_n(400 if big else 40)):
+        topo = rnd_tree(rng, 8 if rng.random() < 0.6 else 4)
+        out.append(case_cert(topo, rng.choice(list(topo.nets))))
     rng.shuffle(out)        # spread the expensive whole-trace cases evenly over the Coq shards
     return out
 
